@@ -503,6 +503,10 @@ class RaftNode(Entity):
         if follower is None:
             return []
 
+        if term != self._current_term:
+            # Answer to an AppendEntries of an earlier term of this node
+            return []
+
         if success:
             self._next_index[follower] = match_index + 1
             self._match_index[follower] = match_index
